@@ -26,6 +26,9 @@ CHECKS = {
     "C10": dict(cat="proof", ref="6 C10",
                 text="scsi_int_to_ba / scsi_ba_to_int for every size 0..16 (32 thorough) against division/modulo spec functions; encode_dict / decode_bits for every contiguous mask of 1..72 bits at every bit alignment (1..128 thorough) plus every mask in the repository, at a symbolic byte offset of an arbitrary buffer (z3 arrays, skolem index for the frame clause); blobs b/w/dw; order independence and decode(encode) on every layout table of the repository",
                 note=TRUST + "the mask family is finite (stated); a proof parametric in the mask is not attempted; callers verified modularly use these contracts"),
+    "C12": dict(cat="other", ref="6 C12",
+                text="mixed, hence 'other': (1) array lemmas (read-after-write, preservation, WRITE SAME) over the abstract disk for every transfer length, discharged by z3; (2) end-to-end histories of 2..4 commands (WRITE 10/12/16, WRITE SAME 10/16 incl. NDOB, SYNCHRONIZE CACHE, READ 10/12/16, READ CAPACITY 10/16, INQUIRY) through the real facade and the real SCSIDevice / ISCSIDevice with the stub binding handing every command to an abstract conformant block target that decodes with the standard's layouts: LBAs (64 bit for the 16-byte forms), flag bits, payload bytes and the initial disk symbolic, transfer lengths 1..3 and block sizes 1,2 (thorough: 1,2,4,8) concrete -> bounded; (3) arbitrary lengths, block sizes and histories follow by induction from the per-call contracts of C01/C03/C13/C07",
+                note=TRUST + "the conformant target is spec/block_target.py; bindings deliver CDB and buffers unmodified; part (2) is bounded in transfer length, block size and history length and is not counted as proof"),
     "C13": dict(cat="other", ref="6 C13",
                 text="deductive, like the proof-level checks, but with one recorded known finding (EXCHANGE MEDIUM INV1/INV2), hence 'other'. Every facade method found on SCSI is interpreted over a recording device (assumed contract of device.execute: may rewrite datain, returns or raises) on every command set that offers the command and for every subset of optional arguments (quick: none / all / each single), all argument values symbolic: exactly one execute, whose command is the returned object with the opcode/service action of the attached set; every given or defaulted argument reaches the CDB at the standard's position; the device saw the very buffers on the command; the decoder runs once, after execute, on that buffer, with arguments the real decoder accepts; a failing device makes the facade raise the same error with nothing decoded",
                 note=TRUST + "unmarshall_datain is replaced by an uninterpreted result (its own contract is C04); structured arguments (mode page, PR OUT list, EXTENDED COPY lists) use representative shapes here and are quantified in C05"),
@@ -35,6 +38,9 @@ CHECKS = {
     "C15": dict(cat="proof", ref="6 C15",
                 text="per-call contracts of SCSIDevice.__init__/open/close/execute/_is_replugged/__enter__/__exit__, ISCSIDevice.close/__exit__ and SCSI.__exit__ over a ghost file system (path -> inode | absent) with an arbitrary environment step between open and execute (old and new inode symbolic, node possibly gone, close() possibly failing), detection on/off, read-only/read-write: a command only ever goes through an open handle on the node that currently exists, stale handles are closed exactly once, a vanished node is an error, the representation invariant is re-established on every exit; history quantifier by induction over calls and environment steps",
                 note=TRUST + "assumed contracts of open / os.stat / file.close; environment steps happen between library calls"),
+    "C16": dict(cat="proof", ref="6 C16",
+                text="SCSI.__init__ and SCSI.__call__ interpreted with the real inquiry()/Inquiry.unmarshall_datain over a device whose 96 INQUIRY bytes are symbolic (all 32 device types x 8 qualifiers, everything else arbitrary), for every initial command set of the first and of a second device: exactly one standard INQUIRY per attach built with the device's current table, devicetype == byte0 & 1Fh, types 00h/04h/07h -> SBC, 01h -> SSC, 05h -> MMC, 08h -> SMC, every selectable set offers INQUIRY / TEST UNIT READY / REPORT LUNS with T10 values; re-attach selects from the second device's answer only and leaves the first device untouched",
+                note=TRUST + "assumed contract of device.execute (writes the given INQUIRY data into cmd.datain)"),
     "C17": dict(cat="proof", ref="6 C17",
                 text="exceptional postconditions on the constructor runs: MissingBlocksizeException iff the block size is needed and zero (READ/WRITE/WRITE SAME/ATA), OpcodeException iff the opcode has no fixed CDB length, for all other argument values",
                 note=TRUST + "refusals inside PR IN / EXTENDED COPY / TransportID marshalling are added with the C05 units"),
